@@ -177,15 +177,15 @@ def run(ctx):
             ctx.ob('C19.2', '%s: header field %s set' % (name, fld), ok,
                    'the file header carries num_workers and start_clock; the shrinking copy takes them from its input', loc=f.loc)
     ctx.floor('C19.2', 20)
-    rule3_shrink(ctx, w)
-    rule4_strings(ctx, w)
-    rule5_growth(ctx)
-    rule6_grouping(ctx, w)
-    rule7_replay(ctx)
-    rule8_descent(ctx, w)
-    rule9_union(ctx)
-    rule10_halfopen(ctx)
-    rule12_dump_layout(ctx, w)
+    ctx.attempt(rule3_shrink, ctx, w)
+    ctx.attempt(rule4_strings, ctx, w)
+    ctx.attempt(rule5_growth, ctx)
+    ctx.attempt(rule6_grouping, ctx, w)
+    ctx.attempt(rule7_replay, ctx)
+    ctx.attempt(rule8_descent, ctx, w)
+    ctx.attempt(rule9_union, ctx)
+    ctx.attempt(rule10_halfopen, ctx)
+    ctx.attempt(rule12_dump_layout, ctx, w)
     # "shrinking a DAG during conversion preserves its totals": the per-kind edge totals of a contracted node and of the subgraph it
     # replaces agree, and the reader sums both (decided in full as C18.4)
     from . import c18
@@ -195,7 +195,7 @@ def run(ctx):
                         doc='shrinking preserves the edge totals (shared with C18.4): every edge kind the enumerator emits for an '
                             'uncontracted subgraph is counted for a contracted one, by one, and dr_calc_edges sums contracted nodes and '
                             'explicit edges into a fully cleared kinds x (nw+1) x (nw+1) table with worker -1 mapped to the extra row'):
-            c18.run(ctx)
+            ctx.attempt(c18.run, ctx)
     finally:
         ctx._in_c19_share = False
         ctx.unit = 'libdr'
